@@ -7,8 +7,11 @@ Local Open Scope N_scope.
 
 Inductive comp := CNormal (n : N) | CParent.
 
+(* what the tar header says the entry is: a regular file, a directory, or a symlink / hard link *)
+Inductive ekind := EFile | EDir | ELink.
+
 (* [en_absolute]: the raw path starts with a root or drive prefix *)
-Record entry := { en_absolute : bool; en_path : list comp; en_content : N }.
+Record entry := { en_absolute : bool; en_path : list comp; en_kind : ekind; en_content : N }.
 Definition archive := list entry.
 
 (* the file system below the unpack PARENT directory (cache/src): paths -> content *)
@@ -28,6 +31,7 @@ Definition OK : N := 1.            (* its body "ok" *)
 Definition last_comp (l : list comp) : option comp := match rev l with [] => None | x :: _ => Some x end.
 Definition is_marker_entry (e : entry) : bool :=
   match last_comp (en_path e) with Some (CNormal n) => N.eqb n MARKER | _ => false end.
+Definition is_link_entry (e : entry) : bool := match en_kind e with ELink => true | _ => false end.
 Definition has_parent (l : list comp) : bool := existsb (fun c => match c with CParent => true | _ => false end) l.
 Definition starts_with_prefix (prefix : N) (l : list comp) : bool :=
   match l with CNormal n :: _ => N.eqb n prefix | _ => false end.
@@ -43,9 +47,13 @@ Definition unpack_step (prefix : N) (st : fs * status) (e : entry) : fs * status
   | Failed => st
   | Running =>
       if negb (entry_ok prefix e) then (fst st, Failed)                              (* UnpackError::InvalidPaths *)
+      else if UNPACK_SKIPS_LINK_ENTRIES && is_link_entry e then st                     (* `continue` *)
       else if UNPACK_SKIPS_MARKER_ENTRIES && is_marker_entry e then st                 (* `continue` *)
       else if has_parent (en_path e) then st                                            (* unpack_in skips `..` *)
-      else (fs_put (fst st) (normals (en_path e)) (en_content e), Running)
+      else match en_kind e with
+           | EFile => (fs_put (fst st) (normals (en_path e)) (en_content e), Running)
+           | _ => st       (* a directory holds no content; a link that IS unpacked is outside this model (C19_links_are_not_unpacked) *)
+           end
   end.
 
 (* unpack_package, cut short after [k] entries when k <= length (a crash, a
